@@ -395,8 +395,8 @@ def extreme (h : Heap) (isMax : Bool) : List Val → R Val
         | .ok false => go ys best
     go xs x
 
-/-- insertion into a sorted prefix: stable insertion sort by `<` (same result as any stable sort
-    when all comparisons succeed) -/
+/-- insertion into a sorted prefix, *after* every element that is not greater: stable insertion
+    sort by `<` (same result as any stable sort when all comparisons succeed) -/
 def insertSorted (h : Heap) (x : Val × Val) : List (Val × Val) → R (List (Val × Val))
   | [] => .ok [x]
   | y :: ys =>
@@ -407,7 +407,7 @@ def insertSorted (h : Heap) (x : Val × Val) : List (Val × Val) → R (List (Va
 
 /-- stable sort of (key, payload) pairs by key -/
 def sortPairs (h : Heap) (xs : List (Val × Val)) : R (List (Val × Val)) :=
-  xs.reverse.foldlM (fun acc x => insertSorted h x acc) []
+  xs.foldlM (fun acc x => insertSorted h x acc) []
 
 /-- are all keys pairwise comparable with `<`?  (Python's sort raises TypeError iff some
     comparison it performs fails; any comparison sort must compare across the incomparable
@@ -470,9 +470,7 @@ def rxRequest (name : String) (args : List Val) : R RxReq :=
       | .str pat, .str sub =>
         .ok { fn := if name == "match_all" then "findall" else "search",
               pattern := pat, subject := sub, flags := flags, timeout := some regexTimeoutMicros }
-      | .opaque _, _ => U "rx-opaque"
-      | _, .opaque _ => U "rx-opaque"
-      | _, _ => .error .typeError
+      | _, _ => U "rx-args"      -- the engine decides (compile error vs type error)
   match args with
   | [s, p] => go s p .none
   | [s, p, fl] => go s p fl
